@@ -74,7 +74,7 @@ impl Prop for SpeedLaw {
         440
     }
     fn cases(&self, tier: Tier) -> u32 {
-        tier.pick(20_000, 600_000)
+        tier.pick(200_000, 3_000_000)
     }
     fn decode(&self, t: &mut Tape, _: Tier) -> Case {
         let nstate = t.urange(1, 7);
@@ -165,7 +165,7 @@ impl Prop for EngineSpeed {
         400
     }
     fn cases(&self, tier: Tier) -> u32 {
-        tier.pick(400, 10_000)
+        tier.pick(3_000, 40_000)
     }
     fn decode(&self, t: &mut Tape, _: Tier) -> EngineCase {
         let n = t.urange(1, 5);
